@@ -35,7 +35,7 @@ type ledgerMon struct {
 	cluster.BaseMonitor
 	r      *crun
 	prop   string
-	final  map[int]map[crypto.Hash]bool   // node -> finalized transactions
+	final  map[int]map[crypto.Hash]bool     // node -> finalized transactions
 	totals map[int]map[crypto.Hash]*big.Int // node -> asset -> model total (units)
 	writes int
 	scans  int
